@@ -20,7 +20,7 @@ public member of Problem is delegated by ProblemWrapper to the wrapped problem a
 overrides a delegated member without delegating; (R16.6) `_inner` is stored only by constructors and
 get_function_problem recurses on it; (R16.7) the precision-reached stop condition reads the sticky flag.
 """
-CLAIM = """Decides the whole property structurally for the shipped wrappers: per-path effect summaries of every evaluate (all acyclic paths, super() composed): arguments and result forwarded unchanged, exactly one forward per forwarding path, counter += 1 iff forwarded, the cutoff's only refusing path guarded by counter >= cutoff with the direction's worst sentinel, precision ETA read from the counter after the counted forward under first-hit and precision guards, sticky flag; delegation of every public Problem member by ProblemWrapper (exhaustiveness) and no breaking override. Stacks of any depth follow by induction because each wrapper is checked against an arbitrary inner Problem."""
+CLAIM = """Decides the whole property structurally for the shipped wrappers: per-path effect summaries of every evaluate (all acyclic paths, super() composed): arguments and result forwarded unchanged, exactly one forward per forwarding path, counter += 1 iff forwarded, the cutoff's only refusing path guarded by counter >= cutoff with the direction's worst sentinel, precision ETA read from the counter after the counted forward under first-hit and precision guards, sticky flag; delegation of every public Problem member by ProblemWrapper (exhaustiveness) and no breaking override. Stacks of any depth follow by induction because each wrapper is checked against an arbitrary inner Problem. Round-3/4 extensions: completeness of the ETA store (every forwarding path that skips it is taken only after a hit or outside the precision); forwards made through a helper that is handed the bound evaluate."""
 NOTE = """The wrapped objective is a function of its argument. Wrapper bodies are loop-free (checked). Numeric value of |f - opt| <= eps is not evaluated."""
 TECHNIQUE = "per-path effect summaries over hand-built CFGs (ast) + interface exhaustiveness check"
 ASSUMPTIONS = ["the wrapped objective is a function of its argument", "wrapper evaluate bodies are loop-free (checked; a loop is reported as inconclusive)"]
